@@ -130,6 +130,11 @@ JudgeC19(t, k) ==
              [cpp |-> o.cpp.model.resvars, py |-> o.py.model.resvars]),
         ChkD(t, "C19:same-fit-parameters-name-value-error-fixedness", BagOfSeq(o.cpp.model.pars) = BagOfSeq(o.py.model.pars),
              [cpp |-> o.cpp.model.pars, py |-> o.py.model.pars]),
+        \* ... and they are the parameters the input file states (k.input_pars: [raw name, value, error | "fixed"])
+        ChkD(t, "C19:fit-parameters-are-those-of-the-input-file",
+             BagOfSeq(MapSeq(o.cpp.model.pars, LAMBDA p : <<p[2], p[3], p[4]>>)) = BagOfSeq(k.input_pars) /\
+             BagOfSeq(MapSeq(o.py.model.pars, LAMBDA p : <<p[2], p[3], p[4]>>)) = BagOfSeq(k.input_pars),
+             [input |-> k.input_pars, cpp |-> o.cpp.model.pars]),
         ChkD(t, "C19:same-amplitudes-in-order-coefficients-spin-factors-lineshapes", o.cpp.model.amps = o.py.model.amps,
              [first_diff |-> LET d == {i \in DOMAIN o.cpp.model.amps : i > Len(o.py.model.amps) \/ o.cpp.model.amps[i] # o.py.model.amps[i]}
                              IN IF d = {} THEN 0 ELSE CHOOSE i \in d : \A j \in d : i <= j,
